@@ -145,6 +145,9 @@ func c19Gen(c *vfCtx, emit func(c19Case)) {
 			}
 		}
 	}
+	for _, b := range vfBigValues() {
+		emit(c19Case{Name: "TestA/s", API: "ssnap", Vals: []string{b, "small"}, New: []string{"small", b}, Execs: 3})
+	}
 	// Filename / Ext options
 	for _, f := range []string{"cust", "dir/cust", "cu%st"} {
 		for _, ext := range []string{"", ".html", ".%d"} {
